@@ -1001,6 +1001,29 @@ func init() {
 	stubs["bytes.Equal"] = func(x *Exec, fr *Frame, st *State, callee *ssa.Function, args []Value, pos token.Pos) Value {
 		return Value{K: KScalar, X: x.bytesEqual(st, args[0], args[1])}
 	}
+	// hash/crc32.Checksum(data, table): an uninterpreted function of the bytes data[0:len) and the table
+	// (assumed: the checksum is a deterministic function of exactly those)
+	stubs["hash/crc32.Checksum"] = func(x *Exec, fr *Frame, st *State, callee *ssa.Function, args []Value, pos token.Pos) Value {
+		if args[0].K != KSlice {
+			unsupported("crc32.Checksum of non-slice")
+		}
+		var ts []*Term
+		ts = append(ts, x.pureArgTerms(st, args[0])...)
+		tab := args[1]
+		if tab.K == KPtr && tab.Loc != nil {
+			ts = append(ts, tab.Loc.Root)
+		} else if tab.X != nil {
+			ts = append(ts, tab.X)
+		} else {
+			unsupported("crc32 table argument")
+		}
+		res := x.pureAppNamed("fn.crc32.Checksum", x.m().leafSort(types.Typ[types.Uint32]), ts)
+		x.sliceExtensionality(callee, []Value{args[0], {K: KScalar, X: ts[len(ts)-1]}}, ts, res)
+		v := Value{T: types.Typ[types.Uint32], K: KScalar, X: res}
+		x.assumeTypeInv(st, v)
+		return v
+	}
+	stubEffectTable["hash/crc32.Checksum"] = newModSet
 	stubs["bytes.HasPrefix"] = func(x *Exec, fr *Frame, st *State, callee *ssa.Function, args []Value, pos token.Pos) Value {
 		return Value{K: KScalar, X: x.bytesHasPrefix(st, args[0], args[1])}
 	}
